@@ -1,5 +1,5 @@
 SPECIFICATION Spec
-CONSTANTS KMax = 12  Peaks = {64, 512, 4096, 32768}  Thr = 8  Relative = TRUE  TailPermille = 10
+CONSTANTS KMax = 10  Sub = 4  Peaks = {4, 64, 512, 4096, 32768}  Steeps = {1, 2, 6}  Thr = 8  Rule = "step_back"  Relative = TRUE  TailPermille = 10
 CHECK_DEADLOCK FALSE
 INVARIANT StopRule
 INVARIANT NoTailTruncation
